@@ -42,6 +42,10 @@ char *inherit_file;
 char *last_verb = 0;
 
 int illegal_sentence_action;
+/* Counts the sentences that remove_action() and remove_sent() have unlinked and freed.
+ * user_parser() compares it before and after a verb function: a flag that an inner
+ * command resets and restores is lost when that command is left by an error. */
+static unsigned long sentences_removed;
 
 object_t *obj_list, *obj_list_destruct;
 object_t *current_object;	/* The object interpreting a function. */
@@ -1257,6 +1261,9 @@ void destruct_object (object_t * ob) {
         {
           next = s->next;
           free_sentence (s);
+          /* user_parser() may be walking this list (a verb function that destructs its own user) */
+          illegal_sentence_action = 2;
+          sentences_removed++;
         }
       ob->sent = NULL;
     }
@@ -1971,7 +1978,7 @@ int user_parser (char *buff) {
   object_t *save_command_giver = command_giver;
   char *user_verb = 0;
   int where;
-  int save_illegal_sentence_action;
+  unsigned long removed_before;
 
   for (p = buff + strlen (buff) - 1; p >= buff; p--)
     {
@@ -2024,12 +2031,11 @@ int user_parser (char *buff) {
         }
     }
 
-  save_illegal_sentence_action = illegal_sentence_action;
-  illegal_sentence_action = 0;
-
   for (s = save_command_giver->sent; s; s = s->next)
     {
       svalue_t *ret;
+
+      removed_before = sentences_removed;
 
       /* Skip sentences from destructed objects (ref counting keeps memory valid) */
       if (s->ob->flags & O_DESTRUCTED)
@@ -2131,26 +2137,22 @@ int user_parser (char *buff) {
         }
 
       if (ret && (ret->type != T_NUMBER || ret->u.number != 0))
-        {
-          if (!illegal_sentence_action)
-            illegal_sentence_action = save_illegal_sentence_action;
-          return 1;
-        }
+        return 1;
 
-      if (illegal_sentence_action)
+      /* s and its successors may be gone: the walk cannot go on */
+      if (sentences_removed != removed_before)
         {
           switch (illegal_sentence_action)
             {
             case 1:
               error ("*Illegal to call remove_action() from a verb returning zero.");
-            case 2:
+            default:
               error ("*Illegal to move or destruct an object defining actions from a verb function which returns zero.");
             }
         }
     }
 
   notify_no_command ();
-  illegal_sentence_action = save_illegal_sentence_action;
 
   return 0;
 }
@@ -2259,6 +2261,7 @@ int remove_action (char *act, char *verb) {
               *s = tmp->next;
               free_sentence (tmp);
               illegal_sentence_action = 1;
+              sentences_removed++;
               return 1;
             }
         }
@@ -2283,6 +2286,7 @@ static void remove_sent (object_t * ob, object_t * user) {
           *s = tmp->next;
           free_sentence (tmp);
           illegal_sentence_action = 2;
+          sentences_removed++;
         }
       else
         s = &((*s)->next);
